@@ -259,6 +259,25 @@ class _Draining:
         return self.gen.items.pop(0)
 
 
+class _LiveList:
+    """Iterates a list the way the for statement does: by position, re-reading the list at every step - a loop body that
+    removes or inserts elements of the list it walks skips or repeats elements exactly as the interpreter would."""
+
+    def __init__(self, lst: "Lst"):
+        self.lst = lst
+        self.i = 0
+
+    def __iter__(self):
+        return self
+
+    def __next__(self):
+        if self.i >= len(self.lst.items):
+            raise StopIteration
+        x = self.lst.items[self.i]
+        self.i += 1
+        return x
+
+
 class FinExpr:
     """A value computed from a finite-set symbol by concrete operations: fn(member) for the eventual member."""
     __slots__ = ("cid", "fn", "desc")
@@ -2185,6 +2204,29 @@ class Interp:
                             for tt in (t.elts if isinstance(t, (ast.Tuple, ast.List)) else [t]):
                                 if isinstance(tt, ast.Attribute) and isinstance(tt.value, ast.Name) and tt.value.id == "self":
                                     out.add(tt.attr)
+            # fields of a plain record that other functions assign through a parameter or a local (result.variable = ...)
+            glob = self.prog.__dict__.get("_cwf_nonself")
+            if glob is None:
+                glob = set()
+                for f in self.prog.all_functions():
+                    for n in ast.walk(f.node):
+                        tg = n.targets if isinstance(n, ast.Assign) else (
+                            [n.target] if isinstance(n, (ast.AugAssign, ast.AnnAssign)) else [])
+                        for t in tg:
+                            for tt in (t.elts if isinstance(t, (ast.Tuple, ast.List)) else [t]):
+                                if isinstance(tt, ast.Attribute) and not (isinstance(tt.value, ast.Name) and tt.value.id == "self"):
+                                    glob.add(tt.attr)
+                self.prog.__dict__["_cwf_nonself"] = glob
+            own = set()
+            for c in self.prog.mro(cinfo):
+                own |= set(c.class_attrs)
+                init = c.methods.get("__init__")
+                if init is not None:
+                    for n in ast.walk(init.node):
+                        if isinstance(n, ast.Attribute) and isinstance(n.ctx, ast.Store) and isinstance(n.value, ast.Name) \
+                                and n.value.id == "self":
+                            own.add(n.attr)
+            out |= (glob & own)
             cache[cinfo.name] = out
         return cache[cinfo.name]
 
@@ -2459,7 +2501,7 @@ class Interp:
         elif isinstance(st, ast.For):
             it = self.eval(st.iter, env)
             one_shot = isinstance(it, Lst) and getattr(it, "is_gen", False)
-            items = _Draining(it) if one_shot else self.iter_items(it)
+            items = _Draining(it) if one_shot else (_LiveList(it) if isinstance(it, Lst) else self.iter_items(it))
             broke = False
             for x in items:
                 self.assign(st.target, x, env)
@@ -3061,6 +3103,10 @@ class Interp:
                 if lo in (None, 0) and st in (None, 1) and isinstance(hi, int) and hi >= 0 and flat_ \
                         and isinstance(flat_[0], str) and len(flat_[0]) >= hi:
                     return flat_[0][:hi]
+            if isinstance(o, Node) and self._dunder(o, "__getitem__") is None:
+                raise AbsRaise("TypeError", self.site, "an expression node is not subscriptable")
+            if o is None or isinstance(o, (bool, int, float, Num)):
+                raise AbsRaise("TypeError", self.site, f"{o!r} is not subscriptable")
             raise Unsupported(f"slice of {o!r} at {self.site}")
         k = self.eval(e.slice, env) if _pre is None else _pre[1]
         if self._dunder(o, "__getitem__") is not None:
